@@ -55,3 +55,60 @@ def is_abs_step(M, t):
         if a == tt:
             return True
     return False
+
+
+def run_sim_history(p, ctx, mode):
+    """Variants of run_sim in which the observed simulate() call is not the first thing that happens to the model.
+
+    mode = "cut+state"   : simulate(max_time=$k) first, then the observed call with initialize_state_info=True, initialize_log_info=False
+    mode = "cut+full"    : simulate(max_time=$k) first, then the observed (default, fully initialising) call
+    mode = "resume"      : simulate(max_time=$k) first, then the observed call continues it (both initialisation flags off)
+    mode = "json-resume" : simulate(max_time=$k), write_simple_json, read_simple_json into a new project, observed call continues it there
+    The oracles then judge the observed call only (its steps carry the project's own clock)."""
+    from props.histcore import clear_mutable_defaults
+
+    spec = p["spec"]
+    M = build(spec, p, ctx.symbolic)
+    kw = sim_kwargs(M)
+    clear_mutable_defaults()
+    with numpy_stub(ctx.symbolic), warnings.catch_warnings():
+        warnings.simplefilter("ignore")
+        ok1, r1 = ctx.call(M.project.simulate, **dict(kw, max_time=p["k"]))
+        if not ok1:
+            ctx.aborted = exc_tag(r1)
+            M.obs = Observer(M)
+            M.exc = r1
+            ctx.sig = ("first-call-raised",)
+            return M
+        if mode == "json-resume":
+            from props.jsoncore import JsonIO, restore_family_view
+            from pDESy.model.base_project import BaseProject
+
+            with JsonIO(ctx) as io:
+                path = io.path("paused.json")
+                okw, rw = ctx.call(M.project.write_simple_json, path)
+                C = BaseProject()
+                okr, rr = ctx.call(C.read_simple_json, path) if okw else (False, rw)
+            if not (okw and okr):
+                ctx.aborted = exc_tag(rw if not okw else rr)
+                M.obs = Observer(M)
+                M.exc = rw if not okw else rr
+                ctx.sig = ("json-raised",)
+                return M
+            M = restore_family_view(C, M)
+        kw2 = dict(kw)
+        if mode == "cut+state":
+            kw2.update(initialize_state_info=True, initialize_log_info=False)
+        elif mode in ("resume", "json-resume"):
+            kw2.update(initialize_state_info=False, initialize_log_info=False)
+        obs = Observer(M)
+        with obs.installed():
+            ok, r = ctx.call(M.project.simulate, **kw2)
+    M.obs = obs
+    M.exc = None if ok else r
+    if not ok:
+        ctx.aborted = exc_tag(r)
+        ctx.notes["aborted"] = ctx.aborted
+    ctx.cover("history:" + mode)
+    ctx.sig = (mode, ctx.c(p["k"]), concrete_sig(M))
+    return M
